@@ -2,7 +2,8 @@
 
 The byte-level universes of the specification (GenLex: every consuming API on every viable prefix /
 minimal rejected string; GenStr: quote, unquote, HTML escape, UTF-8 validation and correction) are
-replayed with the input placed three ways: on the heap in an exact-size allocation, ending exactly
+and every prefix of every document of the binding universe decoded into its typed destination (GenBind: the generated
+decoder programs peek at the bytes after a token) are replayed with the input placed three ways: on the heap in an exact-size allocation, ending exactly
 at a PROT_NONE page (for every tail alignment the lengths of the universe produce), and followed
 in memory by an adversarial continuation chosen to complete or extend the last token (a closing
 quote, `ull`, more digits, a backslash...). A fault on the guard page kills the worker (reported
@@ -16,7 +17,88 @@ and do not change a result are invisible (stated limit).
 import json
 
 from .. import vf
-from . import lexcommon, strcommon, envdiff
+from . import lexcommon, strcommon, envdiff, bindcommon
+import os
+
+
+def bind_prefixes(ctx):
+    """Every prefix of the binding universe's documents decoded into their typed destinations under the three placements."""
+    if ctx.quick:
+        fams = ("leaf", "st1", "st1l", "emb", "opts", "mapkeys", "wrap1")
+        plan = [(f, int(ctx.seed) % bindcommon.FAM_PARTS[f], bindcommon.FAM_PARTS[f]) for f in fams]
+        stride = 3
+    else:
+        plan = []
+        for f, n in bindcommon.FAM_PARTS.items():
+            for k in range(min(n, 4)):
+                plan.append((f, (int(ctx.seed) + k * 5) % n, n))
+        plan = sorted(set(plan))
+        stride = 1
+    rs = bindcommon.gen(ctx, plan)
+    dumps = ",".join(r["dump"] for r in rs)
+    out = {}
+    for env in (None, "VERIF_PLACE=guard", "VERIF_PLACE=adv"):
+        tag = (env or "base").replace("VERIF_PLACE=", "")
+        sfile = os.path.join(ctx.work, "bindpfx-%s.json" % tag)
+        dfile = sfile[:-5] + ".dg"
+        args = ["bind", "-prefixes", "-dump", dumps, "-out", sfile, "-digests", dfile, "-seed", ctx.seed, "-stride", stride]
+        if env:
+            args += ["-env", env]
+        vf.vh(ctx, args, timeout=7200)
+        s = json.load(open(sfile))
+        s["digests"], s["env"], s["dumps"] = dfile, env, dumps
+        s["tlc"] = {"distinct": sum(r["distinct"] for r in rs), "generated": sum(r["generated"] for r in rs)}
+        s["fam"] = "bindprefix"
+        out[env or "base"] = s
+    out["_dumps"] = [r["dump"] for r in rs]
+    return out
+
+
+def compare_prefixes(ctx, base, other, env, known):
+    """Digest comparison per (case, prefix length); the differing cases are re-run with observation logs in both placements."""
+    a, b = envdiff.load(base["digests"]), envdiff.load(other["digests"])
+    tags = envdiff.load.tags
+    ids = sorted(set(a) & set(b))
+    diff = [i for i in ids if a[i] != b[i]]
+    untagged = [i for i in diff if tags.get(i, "-") == "-"]
+    for tag in sorted(set(tags.get(i, "-") for i in diff) - {"-"}):
+        lst = [i for i in diff if tags.get(i) == tag]
+        rec = {"kind": "env_difference", "universe": "bindprefix", "env": env, "tag": tag, "count_with_tag": len(lst), "case_id": lst[0]}
+        fid = vf.match_known(known, rec)
+        if fid:
+            ctx.known_hits[fid] = ctx.known_hits.get(fid, 0) + len(lst)
+        else:
+            untagged += lst
+    if untagged:
+        cases = sorted(set(i // 256 for i in untagged))[:200]
+        only = os.path.join(ctx.work, "pfx-only.txt")
+        open(only, "w").write("\n".join(map(str, cases)))
+        det = {}
+        for e in (None, env):
+            dfile = os.path.join(ctx.work, "pfx-detail-%s.ndjson" % ("env" if e else "base"))
+            args = ["bind", "-prefixes", "-dump", base["dumps"], "-out", os.path.join(ctx.work, "pfx-x.json"), "-only", only, "-detail", dfile, "-seed", ctx.seed]
+            if e:
+                args += ["-env", e]
+            vf.vh(ctx, args, timeout=3600)
+            det[e] = {int(r["sig"]): r for r in map(json.loads, open(dfile))}
+        shown = {}
+        for cid in cases:
+            x, y = det[None].get(cid), det[env].get(cid)
+            if not x or not y:
+                continue
+            for lx, ly in zip(x["got"].split("\n"), y["got"].split("\n")):
+                if lx != ly:
+                    key = (x["type"], lx.split(": ", 1)[0][-12:])
+                    if key in shown or len(shown) >= 12:
+                        continue
+                    shown[key] = 1
+                    rec = {"kind": "env_difference", "universe": "bindprefix", "env": env, "type": x["type"], "document": x["text"], "opts": x["opts"],
+                           "heap": lx[:1500], "placed": ly[:1500], "case_id": cid}
+                    vf.violation(ctx, "Unmarshal into %s of the truncated document %s gives a different result under %s: %s | %s" % (
+                        x["type"], lx.split(": ", 1)[0], env, lx.split(": ", 1)[-1][:160], ly.split(": ", 1)[-1][:160]), rec)
+        if not shown:
+            raise vf.Inconclusive("placement-dependent digests (%d) that the detailed re-run does not reproduce" % len(untagged))
+    return len(ids), len(diff)
 
 
 def check(ctx):
@@ -39,6 +121,9 @@ def check(ctx):
     st = strcommon.run(ctx, envs=(None, "VERIF_PLACE=guard", "VERIF_PLACE=adv"))
     for s in st:
         groups.setdefault("str/" + s["fam"], {})[s.get("env") or "base"] = s
+    bp = bind_prefixes(ctx)
+    bp_dumps = bp.pop("_dumps")
+    groups["bindprefix"] = bp
     for name, g in groups.items():
         base = g["base"]
         states += base["tlc"]["distinct"]
@@ -67,18 +152,29 @@ def check(ctx):
                     continue        # disagreements with the specification's verdict are C02 / C20's business
                 rec = dict(b)
                 rec["env"], rec["universe"] = env, name
+                if name == "bindprefix":
+                    rec["sig"] = {k: "yes" for k, v in (b.get("feat") or {}).items() if v}
+                    rec["api"] = "Unmarshal into " + str(b.get("type"))
                 fid = vf.match_known(known, rec)
                 if fid:
                     ctx.known_hits[fid] = ctx.known_hits.get(fid, 0) + n
                 else:
-                    vf.violation(ctx, "%s touched memory outside its input (%s placement): %s" % (b.get("api"), env, b.get("text")), rec)
+                    vf.violation(ctx, "%s touched memory outside its input (%s placement): %s" % (rec.get("api"), env, b.get("text")), rec)
             if env == "base":
                 continue
-            n, d = envdiff.compare(ctx, name.split("/")[0] if name.startswith("str") else "lex", base["digests"], s["digests"], env, known,
+            if name == "bindprefix":
+                n, d = compare_prefixes(ctx, base, s, env, known)
+                total += n
+                different += d
+                per.append({"universe": name, "placement": env, "cases": n, "different": d})
+                continue
+            n, d = envdiff.compare(ctx, name.split("/")[0] if name.startswith("str") else ("bind -prefixes" if name == "bindprefix" else "lex"), base["digests"], s["digests"], env, known,
                                    "memory placement")
             total += n
             different += d
             per.append({"universe": name, "placement": env, "cases": n, "different": d})
+    for f in bp_dumps:
+        os.remove(f)
     cov = {
         "evaluations": evals,
         "distinct_nontrivial": total,
